@@ -252,7 +252,7 @@ def evaluate(case, decisions, malleable_end_shift=False):
             else:
                 sat = decisions.get(i) is not None
                 r = {"nou": False, "sat": sat, "util": n["utility"] if sat else 0.0, "start": n["start"], "end": n["start"] + n["duration"],
-                     "var_ind": True, "var_time": False}
+                     "var_ind": True, "var_time": False, "start_var": False, "end_var": False}
         elif k == "WINDOWED":
             if not windowed_starts(case, n):
                 r = {"nou": True}
@@ -270,7 +270,8 @@ def evaluate(case, decisions, malleable_end_shift=False):
                 r = {"nou": False, "sat": sat, "util": n["utility"] if sat else 0.0, "start": min(t for _p, t in d) if sat else None,
                      "end": max(t for _p, t in d) + (0 if malleable_end_shift else n["wgran"]) if sat else None, "var_ind": True, "var_time": True}
         elif k == "ALLOCATION":
-            r = {"nou": False, "sat": True, "util": 0.0, "start": n["start"], "end": n["start"] + n["duration"], "var_ind": False, "var_time": False}
+            r = {"nou": False, "sat": True, "util": 0.0, "start": n["start"], "end": n["start"] + n["duration"], "var_ind": False, "var_time": False,
+                 "start_var": False, "end_var": False}
         elif k == "SCALE":
             c = ev(n["children"][0])
             if c["nou"]:
@@ -306,11 +307,17 @@ def evaluate(case, decisions, malleable_end_shift=False):
                      "start": min(starts) if starts else None, "end": max(ends) if ends else None, "var_ind": bool(enf), "var_time": True}
         elif k == "LESSTHAN":
             a, b = ev(n["children"][0]), ev(n["children"][1])
+            a_end_var = a.get("end_var", a.get("var_time", True))
+            b_start_var = b.get("start_var", b.get("var_time", True))
             if a["nou"] or b["nou"]:
                 r = {"nou": True}
-            elif not a["var_time"] and not b["var_time"]:
+            elif not a_end_var and not b_start_var:
+                # the end of the first and the start of the second child are constants of the tree (a Choose/Allocation, or a
+                # LessThan that ends/starts with one): the ordering is decided when the tree is built and the expression is
+                # then satisfied whatever its children do (documented in Expression.cpp)
                 if a["end"] <= b["start"]:
-                    r = {"nou": False, "sat": True, "util": a["util"] + b["util"], "start": a["start"], "end": b["end"], "var_ind": False, "var_time": False}
+                    r = {"nou": False, "sat": True, "util": a["util"] + b["util"], "start": a.get("start"), "end": b.get("end"), "var_ind": False, "var_time": False,
+                         "start_var": a.get("start_var", a.get("var_time", True)), "end_var": b.get("end_var", b.get("var_time", True))}
                 else:
                     r = {"nou": True}
             else:
@@ -322,8 +329,11 @@ def evaluate(case, decisions, malleable_end_shift=False):
                 # nothing and constrains nothing
                 if sat and a.get("end") is not None and b.get("start") is not None and a["sat"] and b["sat"] and a["end"] > b["start"]:
                     invalid.append(f"LESSTHAN {n['name']}: first child ends {a['end']} after second starts {b['start']}")
-                r = {"nou": False, "sat": sat, "util": a["util"] + b["util"], "start": a["start"] if a["sat"] else None,
-                     "end": b["end"] if b["sat"] else None, "var_ind": True, "var_time": True}
+                a_start_var = a.get("start_var", a.get("var_time", True))
+                b_end_var = b.get("end_var", b.get("var_time", True))
+                r = {"nou": False, "sat": sat, "util": a["util"] + b["util"], "start": a.get("start") if (a["sat"] or not a_start_var) else None,
+                     "end": b.get("end") if (b["sat"] or not b_end_var) else None, "var_ind": True, "var_time": True,
+                     "start_var": a_start_var, "end_var": b_end_var}
         elif k == "OBJECTIVE":
             cs = [ev(c) for c in n["children"]]
             r = {"nou": False, "sat": True, "util": sum(c["util"] for c in cs if not c["nou"]), "var_ind": False, "var_time": False}
